@@ -65,7 +65,7 @@ HashIds == Paths \cup {UnknownHash, ZeroHash}
 AllTx == UNION {{Txs(n, v)[i] : i \in 1..Len(Txs(n, v))} : n \in 0..(MaxLen - 1), v \in Variants}
 
 (* transaction attributes are a function of the id's last digit (see MCRpcRead!MCTxs) *)
-TxType(t) == CASE t % 10 = 1 -> "INVOKE" [] t % 10 \in {2, 7} -> "L1_HANDLER" [] t % 10 = 3 -> "INVOKE"
+TxType(t) == CASE t % 10 \in {1, 3, 8} -> "INVOKE" [] t % 10 \in {2, 7} -> "L1_HANDLER"
                [] t % 10 = 4 -> "DEPLOY_ACCOUNT" [] t % 10 = 5 -> "DECLARE" [] OTHER -> "DEPLOY"
 TxReverted(t) == t % 10 = 3
 Exec(t) == IF TxReverted(t) THEN "REVERTED" ELSE "SUCCEEDED"
@@ -85,7 +85,8 @@ DiffOn(st, n, v) ==
       dep == (IF n = 0 THEN {<<1, 1>>} ELSE {})
              \cup (IF st.class[2] = NoClass /\ ((n = 1 /\ v = 1) \/ n = 2) THEN {<<2, 1>>} ELSE {})
       repl == IF n = 3 /\ v = 0 /\ st.class[1] = 1 /\ 2 \in (st.declared \cup decl1) THEN {<<1, 2>>} ELSE {}
-      live(c) == st.class[c] # NoClass \/ \E d \in dep : d[1] = c
+      live(c) == ~(n = 3 /\ v = 1)      \* the block at height 3, variant 1 has an EMPTY state diff
+                 /\ (st.class[c] # NoClass \/ \E d \in dep : d[1] = c)
       stor == (IF live(1) THEN {<<1, 1, 1 + 2 * n + v>>} ELSE {})
               \cup (IF live(1) /\ n = 1 THEN {<<1, 2, 7 + v>>} ELSE {})
               \cup (IF live(1) /\ n = 2 /\ v = 0 /\ st.stor[1][2] # 0 THEN {<<1, 2, 0>>} ELSE {})
@@ -127,7 +128,8 @@ vars == <<chain, height, byNum, numByHash, txIdx, l1, seen, reverts, act, res, w
 view == <<chain, height, byNum, numByHash, txIdx, l1, seen, reverts>>
 dbvars == <<chain, height, byNum, numByHash, txIdx, l1, seen, reverts>>
 
-Nums == 0..MaxLen        \* MaxLen itself is a number no block ever has
+HugeNum == MaxLen + 1    \* stands for 2^64-1 (block_number) / a far-ahead L1 head
+Nums == 0..HugeNum       \* MaxLen and HugeNum are numbers no block ever has
 NoIdx == [n |-> -1, i |-> -1]
 NoRes == [kind |-> "none"]
 Err(e) == [kind |-> "err", e |-> e]
@@ -198,25 +200,25 @@ Status(n, l) == IF l # -1 /\ l >= n THEN "ACCEPTED_ON_L1" ELSE "ACCEPTED_ON_L2"
 
 --------------------------------------------------------------------------
 (* ---- declarative layer ---- *)
-(* Resolve(id): the number of the block of `chain` the identifier denotes, -1 if none *)
-DResolve(id) ==
-  CASE id.k = "num" -> IF id.n < Len(chain) THEN id.n ELSE -1
-    [] id.k = "hash" -> IF id.h \in Paths /\ IsPrefix(id.h, chain) THEN Len(id.h) - 1 ELSE -1
-    [] id.k = "latest" -> Len(chain) - 1
-    [] id.k = "l1_accepted" -> IF l1 = -1 \/ chain = <<>> THEN -1 ELSE Min(l1, Len(chain) - 1)
+(* Resolve(id): the number of the block of chain c the identifier denotes, -1 if none *)
+DResolveIn(c, l, id) ==
+  CASE id.k = "num" -> IF id.n < Len(c) THEN id.n ELSE -1
+    [] id.k = "hash" -> IF id.h \in Paths /\ IsPrefix(id.h, c) THEN Len(id.h) - 1 ELSE -1
+    [] id.k = "latest" -> Len(c) - 1
+    [] id.k = "l1_accepted" -> IF l = -1 \/ c = <<>> THEN -1 ELSE Min(l, Len(c) - 1)
     [] OTHER -> -1       \* pre_confirmed: this node holds no pre-confirmed block
 
 BlockView(p, st) ==
   [kind |-> "block", n |-> Len(p) - 1, hash |-> p, parent |-> Front(p), status |-> st,
    txs |-> TxsOf(p), execs |-> [i \in 1..Len(TxsOf(p)) |-> Exec(TxsOf(p)[i])]]
 
-DBlock(id) == LET n == DResolve(id) IN
-  IF n = -1 THEN Err("BlockNotFound") ELSE BlockView(Prefix(chain, n + 1), Status(n, l1))
+DBlockIn(c, l, id) == LET n == DResolveIn(c, l, id) IN
+  IF n = -1 THEN Err("BlockNotFound") ELSE BlockView(Prefix(c, n + 1), Status(n, l))
 
-DTxPos(t) ==   \* (n, i) of t in chain, NoIdx if not there
-  IF \E n \in 0..(Len(chain) - 1) : \E i \in 1..Len(TxsOf(Prefix(chain, n + 1))) : TxsOf(Prefix(chain, n + 1))[i] = t
-  THEN LET n == CHOOSE n \in 0..(Len(chain) - 1) : \E i \in 1..Len(TxsOf(Prefix(chain, n + 1))) : TxsOf(Prefix(chain, n + 1))[i] = t
-           q == TxsOf(Prefix(chain, n + 1))
+DTxPosIn(c, t) ==   \* (n, i) of t in c, NoIdx if not there
+  IF \E n \in 0..(Len(c) - 1) : \E i \in 1..Len(TxsOf(Prefix(c, n + 1))) : TxsOf(Prefix(c, n + 1))[i] = t
+  THEN LET n == CHOOSE n \in 0..(Len(c) - 1) : \E i \in 1..Len(TxsOf(Prefix(c, n + 1))) : TxsOf(Prefix(c, n + 1))[i] = t
+           q == TxsOf(Prefix(c, n + 1))
        IN [n |-> n, i |-> (CHOOSE i \in 1..Len(q) : q[i] = t) - 1]
   ELSE NoIdx
 
@@ -224,36 +226,36 @@ TxView(t) == [kind |-> "tx", t |-> t, type |-> TxType(t)]
 ReceiptView(t, n, p, l) == [kind |-> "receipt", t |-> t, type |-> TxType(t), n |-> n, hash |-> p,
                             fin |-> Status(n, l), exec |-> Exec(t)]
 
-DWant(a) ==
-  CASE a.name = "blockNumber" -> IF chain = <<>> THEN Err("NoBlocks") ELSE [kind |-> "num", n |-> Len(chain) - 1]
+DWantIn(c, l, a) ==
+  CASE a.name = "blockNumber" -> IF c = <<>> THEN Err("NoBlocks") ELSE [kind |-> "num", n |-> Len(c) - 1]
     [] a.name = "blockHashAndNumber" ->
-         IF chain = <<>> THEN Err("NoBlocks") ELSE [kind |-> "hashnum", n |-> Len(chain) - 1, hash |-> chain]
-    [] a.name \in {"getBlockWithTxHashes", "getBlockWithTxs", "getBlockWithReceipts"} -> DBlock(a.id)
+         IF c = <<>> THEN Err("NoBlocks") ELSE [kind |-> "hashnum", n |-> Len(c) - 1, hash |-> c]
+    [] a.name \in {"getBlockWithTxHashes", "getBlockWithTxs", "getBlockWithReceipts"} -> DBlockIn(c, l, a.id)
     [] a.name = "getBlockTransactionCount" ->
-         LET n == DResolve(a.id) IN IF n = -1 THEN Err("BlockNotFound")
-                                    ELSE [kind |-> "num", n |-> Len(TxsOf(Prefix(chain, n + 1)))]
+         LET n == DResolveIn(c, l, a.id) IN IF n = -1 THEN Err("BlockNotFound")
+                                    ELSE [kind |-> "num", n |-> Len(TxsOf(Prefix(c, n + 1)))]
     [] a.name = "getTransactionByHash" ->
-         IF DTxPos(a.t) = NoIdx THEN Err("TxnHashNotFound") ELSE TxView(a.t)
+         IF DTxPosIn(c, a.t) = NoIdx THEN Err("TxnHashNotFound") ELSE TxView(a.t)
     [] a.name = "getTransactionReceipt" ->
-         LET pos == DTxPos(a.t) IN IF pos = NoIdx THEN Err("TxnHashNotFound")
-                                   ELSE ReceiptView(a.t, pos.n, Prefix(chain, pos.n + 1), l1)
+         LET pos == DTxPosIn(c, a.t) IN IF pos = NoIdx THEN Err("TxnHashNotFound")
+                                   ELSE ReceiptView(a.t, pos.n, Prefix(c, pos.n + 1), l)
     [] a.name = "getTransactionStatus" ->
-         LET pos == DTxPos(a.t) IN IF pos = NoIdx THEN Err("TxnHashNotFound")
-                                   ELSE [kind |-> "status", fin |-> Status(pos.n, l1), exec |-> Exec(a.t)]
+         LET pos == DTxPosIn(c, a.t) IN IF pos = NoIdx THEN Err("TxnHashNotFound")
+                                   ELSE [kind |-> "status", fin |-> Status(pos.n, l), exec |-> Exec(a.t)]
     [] a.name = "getTransactionByBlockIdAndIndex" ->
-         LET n == DResolve(a.id) IN
+         LET n == DResolveIn(c, l, a.id) IN
          IF n = -1 THEN Err("BlockNotFound")
-         ELSE IF a.i >= Len(TxsOf(Prefix(chain, n + 1))) THEN Err("InvalidTxnIndex")
-         ELSE TxView(TxsOf(Prefix(chain, n + 1))[a.i + 1])
+         ELSE IF a.i >= Len(TxsOf(Prefix(c, n + 1))) THEN Err("InvalidTxnIndex")
+         ELSE TxView(TxsOf(Prefix(c, n + 1))[a.i + 1])
     [] a.name = "getStateUpdate" ->
-         LET n == DResolve(a.id) IN
+         LET n == DResolveIn(c, l, a.id) IN
          IF n = -1 THEN Err("BlockNotFound")
-         ELSE [kind |-> "update", hash |-> Prefix(chain, n + 1), old |-> Prefix(chain, n),
-               new |-> Prefix(chain, n + 1), diff |-> DiffTab[Prefix(chain, n + 1)]]
+         ELSE [kind |-> "update", hash |-> Prefix(c, n + 1), old |-> Prefix(c, n),
+               new |-> Prefix(c, n + 1), diff |-> DiffTab[Prefix(c, n + 1)]]
     [] a.name \in {"getStorageAt", "getNonce", "getClassHashAt", "getClassAt", "getClass"} ->
-         LET n == DResolve(a.id) IN
+         LET n == DResolveIn(c, l, a.id) IN
          IF n = -1 THEN Err("BlockNotFound")
-         ELSE LET st == StateTab[Prefix(chain, n + 1)] IN
+         ELSE LET st == StateTab[Prefix(c, n + 1)] IN
            CASE a.name = "getClass" ->
                   IF a.c \in st.declared THEN [kind |-> "class", c |-> a.c] ELSE Err("ClassHashNotFound")
              [] OTHER ->
@@ -262,6 +264,11 @@ DWant(a) ==
                          [] a.name = "getNonce" -> [kind |-> "felt", v |-> st.nonce[a.c]]
                          [] a.name = "getClassHashAt" -> [kind |-> "classhash", c |-> st.class[a.c]]
                          [] OTHER -> [kind |-> "class", c |-> st.class[a.c]]
+
+(* ... in the chain and with the L1 head the node holds now *)
+DResolve(id) == DResolveIn(chain, l1, id)
+DTxPos(t) == DTxPosIn(chain, t)
+DWant(a) == DWantIn(chain, l1, a)
 
 --------------------------------------------------------------------------
 (* ---- implementation layer ---- *)
@@ -337,6 +344,75 @@ IRes(a) ==
                            [] a.name = "getClassHashAt" -> [kind |-> "classhash", c |-> st.class[a.c]]
                            [] OTHER -> [kind |-> "class", c |-> st.class[a.c]]
 
+(* Restart: new Blockchain / rpc.Handler / jsonrpc.Server objects on the same store (graceful =
+   the running event filter is written first).  Nothing the node holds may change. *)
+Restart(graceful) ==
+  /\ act' = [name |-> "Restart", graceful |-> graceful]
+  /\ res' = NoRes /\ want' = NoRes
+  /\ UNCHANGED dbvars
+
+(* A read whose request is IN FLIGHT while the sync loop applies a short sequence of mutators
+   (a reorg of the head, an append, an L1 head update).  The handlers take no snapshot, so the
+   property can only demand that the answer is the right one for ONE of the chains the node held
+   during the call: allowed[i] is the answer in the i-th of those states (1 = when the call started).
+   The buckets afterwards are those of the last state (what Store / Revert leave behind, cf.
+   IndexesDescribeChain, which TLC keeps checking across this composite step). *)
+RevertMut == [name |-> "Revert", v |-> -1, n |-> -1]
+StoreMut(v) == [name |-> "Store", v |-> v, n |-> -1]
+L1Mut(n) == [name |-> "SetL1Head", v |-> -1, n |-> n]
+
+ApplyMut(st, m) ==
+  CASE m.name = "Revert" -> [c |-> Front(st.c), l |-> st.l]
+    [] m.name = "Store" -> [c |-> Append(st.c, m.v), l |-> st.l]
+    [] OTHER -> [c |-> st.c, l |-> m.n]
+
+MutEnabled(st, m) ==
+  CASE m.name = "Revert" -> st.c # <<>>
+    [] m.name = "Store" -> Len(st.c) < MaxLen
+    [] OTHER -> m.n \in Nums /\ m.n # st.l
+
+RECURSIVE StatesAlong(_, _)
+StatesAlong(st, muts) ==    \* <<st, st after muts[1], ...>>; <<>> if some mutator is not enabled
+  IF muts = <<>> THEN <<st>>
+  ELSE IF ~MutEnabled(st, muts[1]) THEN <<>>
+  ELSE LET rest == StatesAlong(ApplyMut(st, muts[1]), Tail(muts))
+       IN IF rest = <<>> THEN <<>> ELSE <<st>> \o rest
+
+NoDiff == [declared0 |-> {}, declared1 |-> {}, deployed |-> {}, replaced |-> {}, storage |-> {}, nonces |-> {}]
+
+ReadDuring(a, muts) ==
+  LET sts == StatesAlong([c |-> chain, l |-> l1], muts)
+      nrev == Cardinality({i \in 1..Len(muts) : muts[i].name = "Revert"})
+  IN /\ muts # <<>> /\ sts # <<>> /\ reverts + nrev <= MaxReverts
+     /\ LET fin == sts[Len(sts)]
+            allowed == [i \in 1..Len(sts) |-> DWantIn(sts[i].c, sts[i].l, a)]
+        IN /\ chain' = fin.c /\ l1' = fin.l
+           /\ height' = Len(fin.c) - 1
+           /\ byNum' = [n \in Nums |-> IF n < Len(fin.c) THEN Prefix(fin.c, n + 1) ELSE NoPath]
+           /\ numByHash' = [h \in HashIds |-> IF h \in Paths /\ IsPrefix(h, fin.c) THEN Len(h) - 1 ELSE -1]
+           /\ txIdx' = [t \in DOMAIN txIdx |-> DTxPosIn(fin.c, t)]
+           /\ seen' = seen \cup {sts[i].c : i \in {j \in 2..Len(sts) : muts[j - 1].name = "Store"}}
+           /\ reverts' = reverts + nrev
+           /\ act' = [name |-> "ReadDuring", read |-> a,
+                      muts |-> [i \in 1..Len(muts) |->
+                                  LET after == sts[i + 1] IN
+                                  [name |-> muts[i].name, v |-> muts[i].v, n |-> muts[i].n,
+                                   path |-> IF muts[i].name = "Store" THEN after.c
+                                            ELSE IF muts[i].name = "SetL1Head" /\ muts[i].n < Len(after.c)
+                                                 THEN Prefix(after.c, muts[i].n + 1) ELSE UnknownHash,
+                                   txs |-> IF muts[i].name = "Store" THEN TxsOf(after.c) ELSE <<>>,
+                                   diff |-> IF muts[i].name = "Store" THEN DiffTab[after.c] ELSE NoDiff,
+                                   chain |-> after.c, l1 |-> after.l]]]
+           /\ res' = [kind |-> "oneof", allowed |-> allowed]
+           /\ want' = [kind |-> "oneof", allowed |-> allowed]
+
+(* the reorg shapes a sync loop produces while a request is being served *)
+MutSeqs ==
+  {<<RevertMut>>} \cup {<<StoreMut(v)>> : v \in Variants} \cup {<<L1Mut(n)>> : n \in Nums}
+  \cup {<<RevertMut, StoreMut(v)>> : v \in Variants}
+  \cup {<<RevertMut, StoreMut(v), L1Mut(n)>> : v \in Variants, n \in Nums}
+  \cup {<<RevertMut, RevertMut, StoreMut(v), StoreMut(w)>> : v \in Variants, w \in Variants}
+
 (* one action per read method; the database is untouched *)
 Read(a) == /\ act' = a /\ res' = IRes(a) /\ want' = DWant(a) /\ UNCHANGED dbvars
 
@@ -361,7 +437,8 @@ GetClassAt(id, c) == Read([name |-> "getClassAt", id |-> id, c |-> c])
 GetClass(id, k) == Read([name |-> "getClass", id |-> id, c |-> k])
 
 TxArgs == AllTx \cup {BogusTx}
-IdxArgs == 0..3
+HugeIdx == 1000000       \* stands for 2^62
+IdxArgs == 0..4 \cup {HugeIdx}
 CArgs == Contracts \cup {BogusContract}
 KArgs == Classes \cup {BogusClass}
 
@@ -369,6 +446,9 @@ Next ==
   \/ \E v \in Variants : Store(v)
   \/ Revert
   \/ \E n \in Nums : SetL1Head(n)
+  \/ \E g \in BOOLEAN : Restart(g)
+  \/ \E ms \in MutSeqs : \E a \in {NoArg("blockHashAndNumber"), IdArg("getBlockWithTxHashes", TagId("latest"))} :
+       ReadDuring(a, ms)
   \/ BlockNumber \/ BlockHashAndNumber
   \/ \E id \in BlockIds :
        \/ GetBlockWithTxHashes(id) \/ GetBlockWithTxs(id) \/ GetBlockWithReceipts(id)
@@ -398,7 +478,7 @@ IndexesDescribeChain ==
   /\ \A t \in DOMAIN txIdx : txIdx[t] = DTxPos(t)
   /\ chain # <<>> => chain \in seen
 
-IsRead(a) == a.name \notin {"Init", "Store", "Revert", "SetL1Head"}
+IsRead(a) == a.name \notin {"Init", "Store", "Revert", "SetL1Head", "Restart", "ReadDuring"}
 
 (* a read that hits one of the two known deviations of the code as it is *)
 KnownDeviation(a) ==
@@ -431,6 +511,17 @@ FinalityFromL1Head ==
 L1AcceptedClamped ==
   [][(IsRead(act') /\ "id" \in DOMAIN act' /\ act'.id.k = "l1_accepted" /\ res'.kind = "block")
        => res'.n <= l1 /\ res'.n <= height /\ (res'.n = l1 \/ res'.n = height)]_vars
+
+(* a restart changes nothing the node holds (so every read answers as before it) *)
+RestartIsNoOp == [][act'.name = "Restart" => UNCHANGED dbvars]_vars
+
+(* an in-flight read is answered from one of the chains held during the call, the first being the
+   chain at call start and the last the chain the node ends up with *)
+InFlightAnswersFromAHeldChain ==
+  [][act'.name = "ReadDuring" =>
+       /\ res'.allowed[1] = DWant(act'.read)
+       /\ res'.allowed[Len(res'.allowed)] = DWantIn(chain', l1', act'.read)
+       /\ Len(res'.allowed) = Len(act'.muts) + 1]_vars
 
 (* reads never change what the node holds *)
 ReadsArePure == [][IsRead(act') => UNCHANGED dbvars]_vars
